@@ -142,6 +142,13 @@ Expect(ev) ==
             IF Locked(w) \/ (ev.mode = "trace" /\ ev.panic) THEN [def |-> FALSE, pre |-> TRUE, w2 |-> w, foot |-> {}] ELSE R(TRUE, w, {})
       [] ev.op = "Reset" ->
             IF PreReset(w) THEN R(TRUE, DoReset(w), {}) ELSE R(FALSE, w, {})
+      \* resources (C18 / C16): ev.ev names the resource type; independent of the world lock
+      [] ev.op = "ResAdd" ->
+            IF PreResAdd(w, ev.ev) THEN R(TRUE, DoResAdd(w, ev.ev, Fn(ev.vals)[ev.ev]), {}) ELSE R(FALSE, w, {})
+      [] ev.op = "ResRemove" ->
+            IF PreResRemove(w, ev.ev) THEN R(TRUE, DoResRemove(w, ev.ev), {}) ELSE R(FALSE, w, {})
+      [] ev.op = "ResSet" ->   \* a write through the pointer Get returns; Get of an absent resource is nil (not regulated)
+            IF PreResSet(w, ev.ev) THEN R(TRUE, DoResSet(w, ev.ev, Fn(ev.vals)[ev.ev]), {}) ELSE [def |-> FALSE, pre |-> TRUE, w2 |-> w, foot |-> {}]
       [] ev.op = "TLock" ->   \* traced programs: the world lock taken / released by a query or a callback phase
             R(TRUE, [w EXCEPT !.cb = @ + 1], {})
       [] ev.op = "TUnlock" ->
@@ -196,15 +203,21 @@ CheckOp(ev) ==
         got == LoggedEnt(ev.st)
         made == CreatedBy(ev)
         isBatch == ev.op \in {"AddBatch", "RemoveBatch", "ExchangeBatch", "SetRelBatch", "KillBatch"}
-        lockMis == Locked(w) /\ ev.op \notin {"Set", "QOpen"}
+        isRes == ev.op \in {"ResAdd", "ResRemove", "ResSet"}
+        lockMis == Locked(w) /\ ev.op \notin {"Set", "QOpen"} /\ ~isRes
+        \* the resources present and their values (executions recorded through the hooks do not log them)
+        vRes == IF "res" \in DOMAIN ev.st /\ Fn(ev.st.res) # exp.res
+                THEN {V(IF ev.op = "Reset" THEN "C16.diverge" ELSE "C18.resource", <<ev.op, "resources", ev.st.res>>)}
+                ELSE {}
         vPanic ==
             IF x.pre /\ ev.panic
             THEN (IF ev.op \in {"QOpen", "QNext", "QClose", "DumpLoad"} THEN {}
                   ELSE IF ev.op = "Load" THEN {V("C17.load-panicked", ev.msg)}
+                  ELSE IF isRes THEN {V("C18.resource", <<ev.op, ev.ev, "panicked">>)}
                   ELSE IF Locked(w) THEN {V("C07.read-failed", ev.op)}   \* allowed on a locked world, but failed
                   ELSE {V(IF RelTouched(ev) THEN "C04.valid-call-panicked" ELSE "C01.valid-call-panicked", ev.op)})
             ELSE IF ~x.pre /\ ~ev.panic
-            THEN {V(IF lockMis THEN "C07.structural-succeeded" ELSE "C10.accepted", ev.op)}
+            THEN {V(IF isRes THEN "C18.resource" ELSE IF lockMis THEN "C07.structural-succeeded" ELSE "C10.accepted", <<ev.op, ev.ev>>)}
             ELSE {}
         vDup == {V("C02.duplicate-handle", made[i]) : i \in {j \in DOMAIN made : made[j] \in w.issued}}
                 \cup {V("C02.duplicate-handle", made[i]) :
@@ -341,7 +354,7 @@ CheckOp(ev) ==
        THEN [def |-> TRUE, next |-> w, vs |-> {V("C02.no-new-handle", <<ev.op, ev.ret>>)}]
        ELSE
        [def |-> x.def, next |-> exp,
-        vs |-> IF x.def THEN vPanic \cup vDup \cup vAlive \cup vCount \cup vEnt \cup vLock \cup vCb \cup vC08 \cup vC09 \cup vQ \cup vShr \cup vDump ELSE {}]
+        vs |-> IF x.def THEN vPanic \cup vDup \cup vAlive \cup vCount \cup vEnt \cup vLock \cup vCb \cup vC08 \cup vC09 \cup vQ \cup vShr \cup vDump \cup vRes ELSE {}]
 
 (***************************************************************************)
 (* Probes: a query / Count / EntityAt battery run by the executor.         *)
